@@ -24,7 +24,10 @@ ANSWERED WITH A RESULT) and consults neither `step` nor the model state.
 namespace Gate.Custom
 open Generated.Gate
 
-inductive Kind | mem | http
+/-- `mem`: a raw JSON-RPC peer on an in-memory pipe; `http`: a session of a stateful StreamableHTTPHandler;
+`cli`: a real `mcp.Client` on in-memory transports (`Client.Connect` performs the handshake; calls are made with
+`AddSendingCustomMethod` + `CallCustomMethod`) — the same server side as `mem`. -/
+inductive Kind | mem | http | cli
 deriving DecidableEq, Repr
 
 /-- A session of the server: its transport and whether `InitializeParams` is set. -/
@@ -92,7 +95,7 @@ def httpAnswer (reg : List String) (init : Bool) (c : Call) : Out :=
 
 def answerOn (reg : List String) (s : Sess) (c : Call) : Out :=
   match s.kind with
-  | .mem => sessionAnswer reg s.init c
+  | .mem | .cli => sessionAnswer reg s.init c
   | .http => httpAnswer reg s.init c
 
 def setInit : List Sess → Nat → List Sess
@@ -104,6 +107,7 @@ def step (s : State) : Op → State × Res
   | .reg n => if isStandard n then (s, .shadows) else ({ s with registered := n :: s.registered }, .ok)
   | .openS .mem => ({ s with sess := s.sess ++ [⟨.mem, false⟩] }, .ok)
   | .openS .http => ({ s with sess := s.sess ++ [⟨.http, true⟩] }, .ok)
+  | .openS .cli => ({ s with sess := s.sess ++ [⟨.cli, true⟩] }, .ok)
   | .hs k =>
     match s.sess[k]? with
     | some ⟨.mem, false⟩ => ({ s with sess := setInit s.sess k }, .ok)
@@ -161,6 +165,9 @@ theorem registered_call_answered (s0 : State) (pre post : List Op) (n : String) 
   | mem =>
     simp only [answerOn, hk, sessionAnswer, hi, hcont, hid]
     cases badParams c.params <;> simp
+  | cli =>
+    simp only [answerOn, hk, sessionAnswer, hi, hcont, hid]
+    cases badParams c.params <;> simp
   | http =>
     simp only [answerOn, hk, httpAnswer, sessionAnswer, hi, hcont, hid]
     cases badParams c.params <;> simp
@@ -171,6 +178,7 @@ theorem uninitialized_never_served (reg : List String) (x : Sess) (c : Call) (hi
     (answerOn reg x c).ran = false ∧ (answerOn reg x c).ans ≠ .result := by
   cases hk : x.kind with
   | mem => simp [answerOn, hk, sessionAnswer, hi]; split <;> simp
+  | cli => simp [answerOn, hk, sessionAnswer, hi]; split <;> simp
   | http =>
     simp only [answerOn, hk, httpAnswer]
     split
@@ -211,6 +219,12 @@ theorem http_sessions_initialized : ∀ (l : List Op) (s : State),
     | openS k =>
       cases k with
       | mem =>
+        intro x hx hk
+        simp only [step, List.mem_append, List.mem_singleton] at hx
+        rcases hx with hx | rfl
+        · exact h x hx hk
+        · cases hk
+      | cli =>
         intro x hx hk
         simp only [step, List.mem_append, List.mem_singleton] at hx
         rcases hx with hx | rfl
@@ -298,6 +312,8 @@ def memNext (m : Mem) : Op → Obs → Mem
   | .reg n, .ack true => { m with regd := n :: m.regd }
   | .openS .mem, .ack true => { m with sess := m.sess ++ [⟨.mem, false⟩] }
   | .openS .http, .ack ok => { m with sess := m.sess ++ [⟨.http, ok⟩] }
+  | .openS .cli, .ack ok => { m with sess := m.sess ++ [⟨.cli, ok⟩] }
+  | .openS .cli, _ => { m with sess := m.sess ++ [⟨.cli, false⟩] }
   | .openS .mem, _ => { m with sess := m.sess ++ [⟨.mem, false⟩] }
   | .openS .http, _ => { m with sess := m.sess ++ [⟨.http, false⟩] }
   | .hs k, .ack true => { m with sess := setInit m.sess k }
@@ -491,7 +507,7 @@ def obsOf (kind : Kind) : Res → Obs
   | .na => .na
   | .out o => .called ⟨wOfAns o.ans,
       (match kind with
-        | .mem => none
+        | .mem | .cli => none
         | .http => some (match o.ans with | .httpRefused => 400 | .nothing => 202 | _ => 200)),
       if o.ran then 1 else 0⟩
 
